@@ -3,7 +3,7 @@
   (C36).  Core Lean only.
 -/
 import Lumina.Model.Pruner
-import Lumina.Proofs.RangesOps
+import Lumina.Proofs.RangesTrunc
 import Lumina.Spec.C36
 
 namespace Lumina.Proofs.Pruner
@@ -70,6 +70,26 @@ def PartitionsOK : Prop := ∀ {rs : Ranges}, RInv rs →
   (rs = [] ∧ partitions rs = .ok none) ∨
   ∃ l m r, partitions rs = .ok (some (l, m, r)) ∧ RInv l ∧ RInv r ∧
     (∀ h, mem rs h ↔ mem l h ∨ h = m ∨ mem r h) ∧ (∀ h, mem l h → h < m) ∧ (∀ h, mem r h → m < h)
+
+/-- `partitions_spec` (`Proofs/RangesTrunc.lean`, stated on the sorted height lists) in the
+    membership form used here -/
+theorem partitionsOK : PartitionsOK := by
+  intro rs hi
+  rcases partitions_spec hi with h | ⟨_, l, m, r, hp, hl, hr, hh, _, _⟩
+  · exact Or.inl h
+  · refine Or.inr ⟨l, m, r, hp, hl, hr, ?_, ?_, ?_⟩
+    · intro h
+      rw [← mem_heights rs h, ← hh, ← mem_heights l h, ← mem_heights r h]
+      simp
+    · intro h hm
+      have hs := heights_sorted hi
+      rw [← hh, List.pairwise_append] at hs
+      exact hs.2.2 h ((mem_heights l h).2 hm) m (by simp)
+    · intro h hm
+      have hs := heights_sorted hi
+      rw [← hh, List.pairwise_append] at hs
+      have := List.rel_of_pairwise_cons hs.2.1 ((mem_heights r h).2 hm)
+      exact this
 
 /-! ### the measure -/
 
@@ -218,6 +238,42 @@ theorem findSlow_correct (hp : PartitionsOK) {store : Nat → Option Nat} {store
     ∃ o, findSlow store stored cutoff = .ok o ∧ SlowAnswer stored T cutoff o := by
   apply findSlowGo_correct hp hs hm (span stored) stored none (Nat.le_refl _)
   exact ⟨hi, fun _ h => h, fun b hb => (by cases hb), fun b hb => (by cases hb), fun h hS _ => Or.inl hS⟩
+
+/-- termination and totality of the binary search alone: no assumption on the times -/
+theorem findSlowGo_total {store : Nat → Option Nat} {S : Ranges} {T : Nat → Nat} {cutoff : Nat}
+    (hs : StoreOK store S T) :
+    ∀ (n : Nat) (ranges : Ranges) (highest : Option BlockInfo), span ranges ≤ n → RInv ranges →
+      (∀ h, mem ranges h → mem S h) → ∃ o, findSlowGo store cutoff ranges highest = .ok o := by
+  intro n
+  induction n with
+  | zero =>
+    intro ranges highest hn hinv hsub
+    rcases partitionsOK hinv with ⟨rfl, hpart⟩ | ⟨l, m, r, hpart, _, _, hmem, _, _⟩
+    · rw [findSlowGo, hpart]; exact ⟨_, rfl⟩
+    · have := span_pos hinv ((hmem m).2 (Or.inr (Or.inl rfl)))
+      omega
+  | succ n ih =>
+    intro ranges highest hn hinv hsub
+    rcases partitionsOK hinv with ⟨rfl, hpart⟩ | ⟨l, m, r, hpart, hil, hir, hmem, hlm, hrm⟩
+    · rw [findSlowGo, hpart]; exact ⟨_, rfl⟩
+    · have hmm : mem ranges m := (hmem m).2 (Or.inr (Or.inl rfl))
+      have hsl : span l < span ranges :=
+        span_lt hinv hil hmm (fun h hh => (hmem h).2 (Or.inl hh)) (Or.inl hlm)
+      have hsr : span r < span ranges :=
+        span_lt hinv hir hmm (fun h hh => (hmem h).2 (Or.inr (Or.inr hh))) (Or.inr hrm)
+      rw [findSlowGo, hpart]
+      simp only [hsl, hsr, and_self, ↓reduceDIte, getBlockTime_ok hs (hsub m hmm)]
+      by_cases hlt : T m < cutoff
+      · simp only [hlt, ↓reduceIte]
+        exact ih r _ (by omega) hir (fun h hh => hsub h ((hmem h).2 (Or.inr (Or.inr hh))))
+      · simp only [hlt, ↓reduceIte]
+        exact ih l _ (by omega) hil (fun h hh => hsub h ((hmem h).2 (Or.inl hh)))
+
+/-- the `while let Some(..) = ranges.partitions()` loop terminates on every well-formed
+    `BlockRanges` whose heights are in the store: never `diverge`, never an error -/
+theorem findSlow_total {store : Nat → Option Nat} {stored : Ranges} {T : Nat → Nat} (cutoff : Nat)
+    (hi : RInv stored) (hs : StoreOK store stored T) : ∃ o, findSlow store stored cutoff = .ok o :=
+  findSlowGo_total hs (span stored) stored none (Nat.le_refl _) hi (fun _ h => h)
 
 /-! ### the fast path -/
 
